@@ -242,3 +242,68 @@ Section GenBranch.
     - reflexivity.
   Qed.
 End GenBranch.
+
+(* ---- typeorder's generic-alias block as regenerated from the source ---- *)
+Lemma gen_order_src_agree : forall o2p ot2 oo e1 e2 n1 n2 merged,
+  gen_order_src o2p ot2 oo e1 e2 n1 n2 merged = gen_order_decide o2p ot2 oo e1 e2 n1 n2 merged.
+Proof.
+  intros o2p ot2 oo e1 e2 n1 n2 merged.
+  first [reflexivity
+        | unfold gen_order_src, gen_order_decide; destruct o2p, ot2, oo, e1, e2;
+          destruct (Nat.eqb n1 n2) eqn:E; destruct (Nat.ltb n1 n2) eqn:L1; destruct (Nat.ltb n2 n1) eqn:L2;
+          destruct (Nat.leb n1 n2) eqn:G1; destruct (Nat.leb n2 n1) eqn:G2; cbn; try reflexivity;
+          exfalso;
+          repeat match goal with
+                 | H : Nat.eqb _ _ = true |- _ => apply Nat.eqb_eq in H
+                 | H : Nat.eqb _ _ = false |- _ => apply Nat.eqb_neq in H
+                 | H : Nat.ltb _ _ = true |- _ => apply Nat.ltb_lt in H
+                 | H : Nat.ltb _ _ = false |- _ => apply Nat.ltb_ge in H
+                 | H : Nat.leb _ _ = true |- _ => apply Nat.leb_le in H
+                 | H : Nat.leb _ _ = false |- _ => apply Nat.leb_gt in H
+                 end; lia].
+Qed.
+
+Definition nonempty {X} (l : list X) : bool := match l with [] => false | _ => true end.
+
+Section GenOrder.
+  Variable sub : nat -> nat -> bool.
+  Variable hasm : nat -> nat -> bool.
+  Variable chk : nat -> nat -> bool.
+  Variable sub_fresh : nat -> bool.
+  Variable rec : ty -> ty -> option order.
+  Variable srec : ty -> ty -> option bool.
+  Notation tord_body := (tord_body sub hasm chk sub_fresh).
+
+  (* two generic aliases: the model's typeorder is the decision of the source with the comparisons put back in *)
+  Theorem gen_gen_order_decides : forall o1 a1 o2 a2,
+    ty_eqb (Gen o1 a1) (Gen o2 a2) = false ->
+    tord_body rec srec (Gen o1 a1) (Gen o2 a2) =
+      match rec (Cls o1) (Cls o2) with
+      | None => None
+      | Some oo =>
+          if order_eqb oo SAME && negb (nonempty a1 && negb (nonempty a2)) && negb (nonempty a2 && negb (nonempty a1))
+             && Nat.eqb (length a1) (length a2)
+          then omap (fun rs => gen_order_src true NONE oo (nonempty a1) (nonempty a2) (length a1) (length a2) (merge rs)) (omapM2 rec a1 a2)
+          else Some (gen_order_src true NONE oo (nonempty a1) (nonempty a2) (length a1) (length a2) NONE)
+      end.
+  Proof.
+    intros o1 a1 o2 a2 Hne. unfold tord_body. rewrite Hne. cbn [hook_order].
+    destruct (rec (Cls o1) (Cls o2)) as [oo|]; [|reflexivity].
+    rewrite !gen_order_src_agree. unfold gen_order_decide. cbn [negb].
+    destruct oo; cbn [order_eqb andb]; try reflexivity.
+    destruct a1 as [|x xs], a2 as [|y ys]; cbn [nonempty andb negb length Nat.eqb]; try reflexivity.
+    destruct (Nat.eqb (length xs) (length ys)) eqn:E; [|reflexivity].
+    destruct (omapM2 rec (x :: xs) (y :: ys)) as [rs|]; cbn [omap]; [|reflexivity].
+    reflexivity || (cbn; rewrite ?E; reflexivity).
+  Qed.
+
+  (* a generic alias against a plain class: the comparison of the origin, SAME read as LESS *)
+  Theorem gen_cls_order_decides : forall o1 a1 d,
+    tord_body rec srec (Gen o1 a1) (Cls d) =
+      omap (fun ot2 => gen_order_src false ot2 NONE (nonempty a1) false (length a1) 0 NONE) (rec (Cls o1) (Cls d)).
+  Proof.
+    intros o1 a1 d. unfold tord_body. cbn [ty_eqb hook_order].
+    destruct (rec (Cls o1) (Cls d)) as [ot2|]; [|reflexivity].
+    cbn [omap]. rewrite gen_order_src_agree. unfold gen_order_decide. cbn [negb]. destruct ot2; reflexivity.
+  Qed.
+End GenOrder.
